@@ -181,6 +181,34 @@ impl WorldB {
                 let target = if self.is_server_addr(dst) { 0 } else { self.slot_of_addr(dst).map(|j| j as u64 + 1).unwrap_or(0) };
                 self.adv_deliver(ix, target, src, obs);
             }
+            K_TAGSQUAT => {
+                // an on-path party copies an honest connection request that is still in flight, damages the sealed token but keeps
+                // its last 16 bytes (the tag the server's token table is keyed by) and hands the copy over from another address
+                // before the original arrives
+                let slot = op.a as usize % ns;
+                let cands: Vec<usize> = self.slots[slot]
+                    .c2s
+                    .iter()
+                    .copied()
+                    .filter(|&ix| self.ledger[ix].ptype == T_REQUEST && matches!(self.ledger[ix].producer, Producer::Client { .. }) && self.ledger[ix].bytes.len() >= 1078)
+                    .collect();
+                if cands.is_empty() {
+                    return;
+                }
+                let from = cands[op.c as usize % cands.len()];
+                let mut b = self.ledger[from].bytes.clone();
+                let pos = 54 + (op.d as usize % 1008); // the sealed part without its tag: bytes 54..1062
+                b[pos] ^= 1 << ((op.d / 1008) % 8);
+                let (orig_src, dst, tid) = (self.ledger[from].src, self.ledger[from].dst, self.ledger[from].tid);
+                let mut src = self.pick_src(op.b);
+                if src == orig_src {
+                    src = if self.adv_addr != orig_src { self.adv_addr } else { addr_v4(66, 66, 66, 68, 6668) };
+                }
+                obs.count("fault.tag_squat");
+                obs.abs.u64(0x4F0);
+                let ix = self.adv_record(b, src, dst, tid, true, obs);
+                self.adv_deliver(ix, 0, src, obs);
+            }
             K_REPLAY => {
                 if self.ledger.is_empty() {
                     return;
